@@ -8,7 +8,9 @@ import (
 	"encoding/json"
 	"fmt"
 	"math/big"
+	"regexp"
 	"sort"
+	"strconv"
 	"strings"
 	gotime "time"
 )
@@ -162,7 +164,15 @@ func coerce(v Val, t colType) (Val, error) {
 	return nil, unsupported("cannot coerce %T to column type %d", v, t)
 }
 
+var reJSONPathSeg = regexp.MustCompile(`^\$\[(\d+)\] == "((?:[^"\\]|\\.)*)"$`)
+
 func castTo(v Val, typ string) (Val, error) {
+	if strings.ToLower(typ) == "jsonpath" {
+		if s, ok := v.(string); ok {
+			return s, nil // kept as text: the @@ operator parses the one shape it knows
+		}
+		return nil, unsupported("cast of %T to jsonpath", v)
+	}
 	if strings.ToLower(typ) == "volumes" {
 		switch r := v.(type) {
 		case nil:
@@ -955,6 +965,34 @@ func (x *sqlExec) eval(e sqlExpr, sc *scope) (Val, error) {
 				return nil, err
 			}
 			return ls.(string) + rs.(string), nil
+		case "@@":
+			// jsonb @@ jsonpath, for the one predicate shape the repository generates: $[<i>] == "<segment>"
+			a, err := coerce(l, ctJSONB)
+			if err != nil {
+				return nil, err
+			}
+			path, ok := r.(string)
+			if !ok {
+				return nil, unsupported("@@ with a %T", r)
+			}
+			m := reJSONPathSeg.FindStringSubmatch(path)
+			if m == nil {
+				return nil, unsupported("jsonpath %q", path)
+			}
+			arr, isArr := a.(jsonVal).v.([]any)
+			if !isArr {
+				return false, nil
+			}
+			idx, _ := strconv.Atoi(m[1])
+			if idx >= len(arr) {
+				return false, nil
+			}
+			var want string
+			if err := json.Unmarshal([]byte(`"`+m[2]+`"`), &want); err != nil {
+				return nil, unsupported("jsonpath string %q", m[2])
+			}
+			got, isStr := arr[idx].(string)
+			return isStr && got == want, nil
 		case "@>", "<@":
 			a, err := coerce(l, ctJSONB)
 			if err != nil {
@@ -1022,6 +1060,22 @@ func (x *sqlExec) evalFunc(f *eFunc, sc *scope) (Val, error) {
 		args[i] = v
 	}
 	switch f.name {
+	case "jsonb_array_length":
+		if len(args) != 1 {
+			return nil, unsupported("jsonb_array_length arity")
+		}
+		if args[0] == nil {
+			return nil, nil
+		}
+		j, err := coerce(args[0], ctJSONB)
+		if err != nil {
+			return nil, err
+		}
+		arr, ok := j.(jsonVal).v.([]any)
+		if !ok {
+			return nil, pgErr("22023", "cannot get array length of a non-array", "")
+		}
+		return bigFromInt(int64(len(arr))), nil
 	case "json_build_object", "jsonb_build_object":
 		if len(args)%2 != 0 {
 			return nil, pgErr("22023", "argument list must have even number of elements", "")
